@@ -873,7 +873,19 @@ func runC07ProcS3Prune(c *fw.Case) {
 		kind string
 		at   int
 	}{{"LIST", 1}, {"DELETE", 1}, {"DELETE", unref}, {"DELETE", 1 + c.Draw(unref, "s3prune.k")}}
+	// the schedule inside the child is the kernel's, not ours: each point is run a few times so that a
+	// violation which depends on it (a select between a closed done channel and a ready receiver) is met,
+	// and met again on replay
+	var runs []struct {
+		kind string
+		at   int
+	}
 	for _, pt := range points {
+		for rep := 0; rep < 4; rep++ {
+			runs = append(runs, pt)
+		}
+	}
+	for _, pt := range runs {
 		s3, args := serve()
 		if s3 == nil {
 			return
